@@ -25,3 +25,6 @@ def run(ctx):
     run_kernels(ctx, ["K7", "K8", "K14"], "C11")
     r.floor("C11.next-level.inclusion", 8)
     r.floor("C11.next-level.containment", 8)
+    # every class must compile the pattern of its own structure(): what the accepted language rests on
+    from ..rules_ast import persistent_state_rule
+    ctx.guard(persistent_state_rule, ctx, "C11.own-pattern")
